@@ -50,7 +50,8 @@ def verify(prop, v):
     os.makedirs("/tmp/sv", exist_ok=True)
     rc, out = sh("git -C /repo worktree add -q --detach %s HEAD" % wt)
     assert rc == 0, out
-    res = {"id": sid, "property": prop}
+    propid = prop[:3]
+    res = {"id": sid, "property": propid}
     try:
         rc, out = run_demo(src, wt)
         res["demo_without_change"] = "pass" if rc == 0 else "FAIL(%d)" % rc
@@ -79,7 +80,7 @@ def verify(prop, v):
             os.makedirs(dst)
             open(dst + "/patch.diff", "w").write(diff)
             shutil.copytree(src + "/demo", dst + "/demo")
-            meta = {"id": sid, "breaks_property": prop,
+            meta = {"id": sid, "breaks_property": propid,
                     "what_and_needs": open(src + "/meta.txt").read().strip() if os.path.exists(src + "/meta.txt") else "",
                     "confirmed_by": {"patch applies to /repo HEAD (with fix: commits)": True, "go build ./...": True,
                                      "baseline (48 stable tests)": res["baseline_tests"], "demo without change": "passes", "demo with change": "fails"},
